@@ -120,6 +120,13 @@ func c13Check(c *Ctx, b *roaring.Bitmap, m *ISet, mutate bool) {
 		func() {
 			defer reg.Free()
 			fv := roaring.New()
+			if c.R.Chance(0.5) {
+				// FrozenView is a method of an existing bitmap: the receiver may have been used before
+				var how string
+				fv, how = reusedReceiver(c)
+				c.Step("receiver %s", how)
+				c.Count("receiver_" + how)
+			}
 			c.Step("FrozenView over read-only guard memory (end-flush=%v)", endFlush)
 			var verr error
 			if c.Guard("FrozenView", func() {
